@@ -54,7 +54,7 @@ RULE = ("R1: every well-formed event list over {Sig,Enter,Leave,FileOp,Other,Exn
         "real SignalHandler vs extracted model (ops, outcome, steps, final flags). R2/D: per tool sub-command (mid3v2 write/-D/--delete-frames, "
         "mid3iconv, mid3cp, moggsplit, and -d -s -C -p, two-phase, --remove-v1 --force-v1 --merge --write-v1 --m3u variants) with >= 2 files, a "
         "real signal at EVERY event index of the run (quick: SIGINT every index, SIGTERM/SIGHUP on a stride with rng offset, plus every source-line "
-        "event of two small invocations; thorough: all three at every index plus every source-line event of every invocation). non-trivial = a signal was delivered and the run was cut short; distinct by "
+        "event of two small invocations; thorough: all three at every index plus every source-line event of every invocation). non-trivial = a real signal was delivered to the running tool (R2) / the event list contains a Sig (R1); distinct by "
         "(case, signal, index, mode)")
 
 SIGNAMES = ["SIGINT", "SIGTERM", "SIGHUP"]
@@ -587,6 +587,13 @@ def check_run(ctx, P, signame, t, r, mode):
 
     reported = []
 
+    def disagree(runner, what, d):
+        P.ndis = getattr(P, "ndis", 0) + 1
+        if P.ndis <= 3:                      # a few per invocation are enough to describe a broken correspondence
+            ctx.disagree(runner, what, d)
+        else:
+            ctx.count("disagreements-not-listed")
+
     def viol(what, **extra):
         # one violation per run, one per (case, kind) per check: a single broken schedule is enough to replay
         key = "%s: %s" % (case.id, what)
@@ -600,7 +607,7 @@ def check_run(ctx, P, signame, t, r, mode):
     if "killed_by" in r:
         return viol("tool process killed by signal %d (handler not installed by entry_point)" % r["killed_by"])
     if r.get("error"):
-        ctx.disagree("c20.harness", "%s: child failed: %s" % (tag, r["error"][-300:]), data)
+        disagree("c20.harness", "%s: child failed: %s" % (tag, r["error"][-300:]), data)
         return True
     ctx.count("deliveries:" + signame)
     trace = r["trace"]
@@ -609,7 +616,7 @@ def check_run(ctx, P, signame, t, r, mode):
     stages, inunit = expected_stages(P, t)
     got = r["snap"]
     if not r["sent"] or not r["delivered"]:
-        ctx.disagree("c20.harness", "%s: signal at %d not delivered (sent=%s)" % (tag, t, r["sent"]), data)
+        disagree("c20.harness", "%s: signal at %d not delivered (sent=%s)" % (tag, t, r["sent"]), data)
         return True
     if r["late"]:
         ctx.count("late-delivery")
@@ -639,19 +646,19 @@ def check_run(ctx, P, signame, t, r, mode):
     ctx.oracle_cases += 1
     # ---- R2: the model predicts the run -------------------------------------------------------------
     if stripped != P.prog[:len(stripped)]:
-        ctx.disagree("c20.tool", "%s: signalled run is not a prefix of the undisturbed program (sig %s at %d; diverges at %d)" %
+        disagree("c20.tool", "%s: signalled run is not a prefix of the undisturbed program (sig %s at %d; diverges at %d)" %
                      (tag, signame, t, next((i for i, (a, b) in enumerate(zip(stripped, P.prog)) if a != b), len(P.prog))), data)
     else:
         woven = P.mprog[:spos] + ["S"] + P.mprog[spos:]
         pr = parse_run(ctx.model.call("sig_run", *woven))
         obs_ops = [tok_model(tk)[1:] for tk in trace if tk[0] == "F"]
         if pr is None:
-            ctx.disagree("c20.tool", "%s: model error" % tag, data)
+            disagree("c20.tool", "%s: model error" % tag, data)
         elif (pr["out"], pr["steps"], pr["ops"]) != (r["outcome"], len(trace), obs_ops):
-            ctx.disagree("c20.tool", "%s: sig %s at %d (%s): model predicts %s after %d events / %d ops, observed %s after %d events / %d ops" %
+            disagree("c20.tool", "%s: sig %s at %d (%s): model predicts %s after %d events / %d ops, observed %s after %d events / %d ops" %
                          (tag, signame, t, P.prog[t], pr["out"], pr["steps"], len(pr["ops"]), r["outcome"], len(trace), len(obs_ops)), data)
         elif spos != t:
-            ctx.disagree("c20.tool", "%s: handler ran at event %d, signal sent at %d" % (tag, spos, t), data)
+            disagree("c20.tool", "%s: handler ran at event %d, signal sent at %d" % (tag, spos, t), data)
     ctx.corr_cases += 1
     cut = len(stripped) < len(P.prog)
     ctx.count("cut-short" if cut else "ran-to-end-then-exit")
